@@ -147,6 +147,15 @@ def gen_projects(rng, quick):
         # some projects: HOME is not set
         if i % 7 == 5:
             proj["env"] = dict(proj.get("env") or {}, **NO_HOME)
+        # declaration kinds that are no targets (unexported namespace types with exported methods, methods
+        # of ordinary types, constructors, aliases / derived / embedded namespaces ...): in half of the
+        # imported packages and in a third of the magefile packages; nothing of it may be exposed, and
+        # the project must still build
+        for pk in proj["packages"]:
+            if rng.random() < 0.5:
+                pk["zoo"] = True
+        if rng.random() < 0.34:
+            proj["local"]["zoo"] = True
         # every fourth project: a TAGGED package without any target (contributes nothing; since fix
         # 904a16e the generated main imports it as `_`); everything else is listed and runs
         if i % 4 == 1:
@@ -818,6 +827,9 @@ def run(ctx):
             by["size_extremes"][proj["extreme"]] = {"files_of_the_largest_package": max(len((obs.get("gofiles") or {}).get(p, [])) for p in obs["golist_mf"]) if obs["golist_mf"] else 0,
                                                     "bytes_of_its_file_list": max(sum(len(x) + 2 for x in (obs.get("gofiles") or {}).get(p, [])) for p in obs["golist_mf"]) if obs["golist_mf"] else 0,
                                                     "targets_listed": len(obs.get("names") or [])}
+        nz = sum(1 for pk in proj["packages"] if pk.get("zoo")) + (1 if proj["local"].get("zoo") else 0)
+        if nz:
+            by["packages_with_non_target_declaration_kinds"] = by.get("packages_with_non_target_declaration_kinds", 0) + nz
         if proj.get("multi"):
             by["same_package_several_times"][proj["multi"]] = by["same_package_several_times"].get(proj["multi"], 0) + 1
         if proj.get("size"):
